@@ -4,6 +4,7 @@
    entries.  Proofs: Modfile/EditProofsTyped.v, EditProofsComments.v. *)
 From Verif.Base Require Import Bytes.
 From Coq Require Import Permutation.
+From Verif.Modfile Require Import Syntax Print Directives RoundDir2 Reparse3 Reparse5 Reparse7 Reparse9 Reparse11 Reparse12 Reparse15 Reparse16 Reparse18.
 From Verif.Modfile Require Import EditModel EditOps EditSpec EditProofsTyped EditProofsHeap EditProofsComments EditProofsSeq EditProofsBlocks EditProofsSetRequire EditProofs2Blocks EditProofs2Inv EditProofs2Refine.
 
 (* Every operation that does not sort blocks refines its documented step on the keyed
@@ -122,7 +123,69 @@ Theorem C08_untargeted_lines_keep_comments_run : forall ops f errs f',
 Proof. exact comments_kept_run_ops. Qed.
 Print Assumptions C08_untargeted_lines_keep_comments_run.
 
+(* ---------------------------------------------------------------- result_parses_strictly
+
+   Composition with the parser/printer round trip of C02 and the C15 invariants
+   (Modfile/Reparse1-19.v; the hypotheses are explained in Props/C15.v).  For every starting state
+   that satisfies the C15 invariant, whose tree is SynGood and whose typed entries are valid
+   items, and every sequence of operations with valid arguments that does not panic, followed by
+   Cleanup: Format of the final tree is accepted by the strict parser (modfile.Parse without
+   fixer / modfile.ParseWork), and the directives it delivers are, as multisets, EXACTLY the
+   prediction [krun] of the keyed model (the text values Deprecated / Rationale aside, finding
+   K6), with the predicted per-operation errors. *)
+Theorem C08_result_parses_strictly : forall name ops f errs f',
+  Coherent f -> BlockIdsOk (fsyn f) -> HeapSettable (fsyn f) -> SynGood known_mod_block (fsyn f) -> KOk Pmod (abs f) ->
+  Forall (fun o => valid_args o = true) ops -> Forall comment_arg_ok ops -> Forall (strict_args Pmod) ops ->
+  run_ops (ops ++ [Cleanup]) f = RunOk errs f' ->
+  exists parsed, parse_to_file true None (format (to_syntax name (fsyn f'))) = DOk parsed /\
+    (let k := fst (krun (ops ++ [Cleanup]) (abs f) []) in
+     option_map (fun m => mv_path (md_mod m)) (fd_module parsed) = k_module k /\
+     option_map go_version (fd_go parsed) = k_go k /\
+     option_map tc_name (fd_toolchain parsed) = k_toolchain k /\
+     Permutation (map (fun g => (Directives.gd_key g, gd_value g)) (fd_godebug parsed)) (k_godebug k) /\
+     Permutation (map (fun r => (mv_path (rq_mod r), mv_version (rq_mod r), rq_indirect r)) (fd_require parsed)) (k_require k) /\
+     Permutation (map (fun r => (mv_path (ex_mod r), mv_version (ex_mod r))) (fd_exclude parsed)) (k_exclude k) /\
+     Permutation (map rep_vals (fd_replace parsed)) (k_replace k) /\
+     Permutation (map (fun r => (rt_low r, rt_high r)) (fd_retract parsed))
+                 (map (fun x => (fst (fst x), snd (fst x))) (k_retract k)) /\
+     Permutation (map Directives.tl_path (fd_tool parsed)) (k_tool k)) /\
+    snd (krun (ops ++ [Cleanup]) (abs f) []) = errs.
+Proof. exact result_parses_strictly_mod. Qed.
+Print Assumptions C08_result_parses_strictly.
+
+Theorem C08_result_parses_strictly_work : forall name ops f errs f',
+  Coherent f -> BlockIdsOk (fsyn f) -> HeapSettable (fsyn f) -> SynGood known_work_block (fsyn f) -> KOk Pwork (abs f) ->
+  Forall (fun o => valid_args o = true) ops -> Forall comment_arg_ok ops -> Forall (strict_args Pwork) ops ->
+  run_ops (ops ++ [WCleanup]) f = RunOk errs f' ->
+  exists parsed, parse_work None (format (to_syntax name (fsyn f'))) = DOk parsed /\
+    (let k := fst (krun (ops ++ [WCleanup]) (abs f) []) in
+     option_map go_version (wf_go parsed) = k_go k /\
+     option_map tc_name (wf_toolchain parsed) = k_toolchain k /\
+     Permutation (map (fun g => (Directives.gd_key g, gd_value g)) (wf_godebug parsed)) (k_godebug k) /\
+     Permutation (map Directives.us_path (wf_use parsed)) (map fst (k_use k)) /\
+     Permutation (map rep_vals (wf_replace parsed)) (k_replace k)) /\
+    snd (krun (ops ++ [WCleanup]) (abs f) []) = errs.
+Proof. exact result_parses_strictly_work. Qed.
+Print Assumptions C08_result_parses_strictly_work.
+
+(* the state-level form: ANY coherent state whose tree is printable and whose typed entries are
+   valid is formatted to a file the strict parser accepts (no hypothesis on how it was reached) *)
+Theorem C08_printable_state_parses_strictly : forall name f,
+  Coherent f -> Printable known_mod_block (fsyn f) -> tis_ok (typed_items f) ->
+  exists f', parse_to_file true None (format (to_syntax name (fsyn f))) = DOk f'.
+Proof. intros name f Hc Hp Ht. destruct (typed_equals_reparse_mod name f Hc Hp Ht) as (f' & H & _). exists f'. exact H. Qed.
+Print Assumptions C08_printable_state_parses_strictly.
+
+(* The hypothesis strict_args is needed: the operations do not validate what they write.
+   AddToolchainStmt accepts every name matching ToolchainRE = ^default$|^go1($|\.) and writes it
+   unquoted; "go1. x y" is accepted by the operation and by the keyed model, and the formatted
+   file does not parse (confirmed on the implementation, .work/reparse-scratch/tc_test.go). *)
+Example C08_result_parses_strictly_needs_strict_args :
+  exists f', add_toolchain_stmt (mkEFile (mkSyn [] 0 no_coms []) None None None [] [] [] [] [] [] []) (B "go1. x y") = ROk f' /\
+  k_toolchain (abs f') = Some (B "go1. x y") /\
+  exists errs, parse_to_file true None (format (to_syntax [] (fsyn f'))) = DErrs errs.
+Proof. eexists. split; [vm_compute; reflexivity|]. split; [vm_compute; reflexivity|]. eexists. vm_compute. reflexivity. Qed.
+
 (* NOT PROVED here:
-   result_parses_strictly (needs the parser/printer round trip of C02/C20);
    "an untargeted line stays in the tree": follows from C15 coherence (the line of a live entry
      is a live line of the tree), not stated separately. *)
